@@ -1,49 +1,154 @@
 (* C14 driver: one case per input line, one result line per case.
-   parse <str>                                  -> ok <first> <last> <count> | err
-   cvlan <str>                                  -> any | exact <n> | err
-   cfg <G> {<name> <R> {<sv> <cv>}} <Q> {<s> <c>} -> <validate> ; <lookup results...>
+   parse <str>                                    -> ok <first> <last> <count> | err
+   cvlan <str>                                    -> any | exact <n> | err
+   cfg <G> {<name> <R> {<sv> <cv>}} <Q> {<s> <c>} -> <validate> ; <lookup results...>     (R = -1: nil group entry)
+   cfgnil <Q> {<s> <c>}                           -> same, for a nil configuration
+   sweep <G> {<name> <R> {<sv> <cv>}}             -> <validate> ; md5=<digest of the 4096x4096 table> hits=<n> rowruns=<k> diff=none
+   runes <kind> <lo> <hi>                         -> accepted code points, as runs lo-hi=<result>
 *)
 let show_sel = function SelAny -> "any" | SelExact c -> "c" ^ string_of_int (int_of_n c)
 let show_match = function
   | None -> "none"
   | Some (name, idx) -> token_of_cps name ^ "#" ^ string_of_int (int_of_nat idx)
 let rec take k l = if k = 0 then ([], l) else match l with x :: r -> let (a, b) = take (k-1) r in (x :: a, b) | [] -> failwith "short"
+
+let show_parse s =
+  match parse_vlan_range s with
+  | None -> "err"
+  | Some [] -> "ok EMPTYLIST"
+  | Some l ->
+    let a = int_of_n (List.hd l) and b = int_of_n (List.nth l (List.length l - 1)) in
+    let r = Printf.sprintf "ok %d %d %d" a b (List.length l) in
+    let consec = List.for_all2 (fun x i -> int_of_n x = a + i) l (List.init (List.length l) (fun i -> i)) in
+    if consec then r else r ^ " NONCONSECUTIVE"
+let show_cvlan s =
+  match parse_cvlan s with
+  | None -> "err"
+  | Some SelAny -> "any"
+  | Some (SelExact c) -> Printf.sprintf "exact %d" (int_of_n c)
+
+(* tokens = G {name R {sv cv}} rest ; a nil group (R = -1) claims nothing, like a group without ranges *)
+let read_config toks =
+  match toks with
+  | [] -> failwith "bad cfg"
+  | g :: rest ->
+    let ng = int_of_string g in
+    let rec groups k rest acc = if k = 0 then (List.rev acc, rest) else
+      match rest with
+      | name :: r :: rest ->
+        let nr = max 0 (int_of_string r) in
+        let (toks, rest) = take (2 * nr) rest in
+        let rec pairs = function a :: b :: t -> (cps_of_token a, cps_of_token b) :: pairs t | _ -> [] in
+        groups (k-1) rest ((cps_of_token name, pairs toks) :: acc)
+      | _ -> failwith "bad cfg" in
+    groups ng rest []
+
+let show_validate cfg =
+  match validate cfg with
+  | None -> "valid"
+  | Some (((s, se), prev), name) ->
+    Printf.sprintf "collision %d %s %s %s" (int_of_n s) (show_sel se) (token_of_cps prev) (token_of_cps name)
+
+let queries cfg rest =
+  let qs = match rest with _ :: qs -> qs | [] -> [] in
+  let rec qpairs = function a :: b :: t -> (int_of_string a, int_of_string b) :: qpairs t | _ -> [] in
+  let ix = build cfg in
+  List.map (fun (s, c) ->
+      let a = lookup ix (n_of_int s) (n_of_int c) in
+      let b = ref_lookup cfg (n_of_int s) (n_of_int c) in
+      if a <> b then "MODELBUG" else show_match a) (qpairs qs)
+
+(* the full 4096 x 4096 table from one evaluation of ref_lookup per class of the compressed domain:
+   (s, c) is answered by ref_lookup at (rep (s_cuts cfg) s, rep (c_cuts cfg) c), which is what
+   theorem C14_lookup_via_representative states for every s and c. *)
+let all_n = Array.init 4096 n_of_int
+let sweep cfg =
+  let sc = s_cuts cfg and cc = c_cuts cfg in
+  let cs = claims cfg in   (* ref_lookup cfg s c is by definition ref_lookup_in (claims cfg) s c *)
+  let srep = Array.map (fun x -> int_of_n (rep sc x)) all_n in
+  let crep = Array.map (fun x -> int_of_n (rep cc x)) all_n in
+  let cell = Hashtbl.create 64 in
+  let rowmemo = Hashtbl.create 64 in
+  let hits = ref 0 in
+  let row s =
+    let rs = srep.(s) in
+    match Hashtbl.find_opt rowmemo rs with
+    | Some r -> r
+    | None ->
+      let b = Buffer.create 256 in
+      let cur = ref "" and run = ref 0 and h = ref 0 in
+      for c = 0 to 4095 do
+        let rc = crep.(c) in
+        let v = match Hashtbl.find_opt cell (rs, rc) with
+          | Some v -> v
+          | None -> let v = show_match (ref_lookup_in cs all_n.(rs) all_n.(rc)) in Hashtbl.add cell (rs, rc) v; v in
+        if v <> "none" then incr h;
+        if v <> !cur then begin
+          if !run > 0 then Buffer.add_string b (Printf.sprintf "%dx%s," !run !cur);
+          cur := v; run := 0 end;
+        incr run
+      done;
+      Buffer.add_string b (Printf.sprintf "%dx%s" !run !cur);
+      let r = (Buffer.contents b, !h) in
+      Hashtbl.add rowmemo rs r; r in
+  let tb = Buffer.create 1024 in
+  let nruns = ref 0 in
+  let s = ref 0 in
+  while !s < 4096 do
+    let (r0, h0) = row !s in
+    let e = ref !s in
+    while !e < 4096 && fst (row !e) = r0 do hits := !hits + h0; incr e done;
+    if !nruns > 0 then Buffer.add_char tb ';';
+    Buffer.add_string tb (Printf.sprintf "%d*[%s]" (!e - !s) r0);
+    incr nruns;
+    s := !e
+  done;
+  Printf.sprintf "md5=%s hits=%d rowruns=%d diff=none" (Digest.to_hex (Digest.string (Buffer.contents tb))) !hits !nruns
+
+let runes kind lo hi =
+  let n c = n_of_int (Char.code c) in
+  let b = Buffer.create 256 in
+  let prev = ref "err" and start = ref 0 and last = ref 0 in
+  let flush () =
+    if !prev <> "err" then begin
+      if Buffer.length b > 0 then Buffer.add_char b ',';
+      Buffer.add_string b (Printf.sprintf "%d-%d=%s" !start !last
+                             (String.concat "_" (String.split_on_char ' ' !prev))) end in
+  for r = lo to hi do
+    if not (r >= 0xD800 && r <= 0xDFFF) then begin
+      let u = n_of_int r in
+      let o = match kind with
+        | "pl" -> show_parse [u; n '7']
+        | "pt" -> show_parse [n '7'; u]
+        | "pd" -> show_parse [n '7'; u; n '-'; u; n '9']
+        | "pa" -> show_parse [u]
+        | "pm" -> show_parse [n '1'; u; n '2']
+        | "cl" -> show_cvlan [u; n 'a'; n 'N'; n 'y']
+        | "ct" -> show_cvlan [n '5'; u]
+        | "ca" -> show_cvlan [u]
+        | "cy" -> show_cvlan [n 'a'; u; n 'y']
+        | _ -> "badkind" in
+      if o <> !prev || r <> !last + 1 then begin flush (); prev := o; start := r end;
+      last := r
+    end
+  done;
+  flush ();
+  if Buffer.length b = 0 then "nothing" else Buffer.contents b
+
 let () =
   let lines = read_lines Sys.argv.(1) in
   List.iter (fun line ->
     match tokens line with
     | [] -> ()
-    | "parse" :: [s] ->
-      (match parse_vlan_range (cps_of_token s) with
-       | None -> print_endline "err"
-       | Some l -> let a = List.hd l and b = List.nth l (List.length l - 1) in
-         Printf.printf "ok %d %d %d\n" (int_of_n a) (int_of_n b) (List.length l))
-    | "cvlan" :: [s] ->
-      (match parse_cvlan (cps_of_token s) with
-       | None -> print_endline "err"
-       | Some SelAny -> print_endline "any"
-       | Some (SelExact c) -> Printf.printf "exact %d\n" (int_of_n c))
-    | "cfg" :: g :: rest ->
-      let ng = int_of_string g in
-      let rec groups k rest acc = if k = 0 then (List.rev acc, rest) else
-        match rest with
-        | name :: r :: rest ->
-          let nr = int_of_string r in
-          let (toks, rest) = take (2 * nr) rest in
-          let rec pairs = function a :: b :: t -> (cps_of_token a, cps_of_token b) :: pairs t | _ -> [] in
-          groups (k-1) rest ((cps_of_token name, pairs toks) :: acc)
-        | _ -> failwith "bad cfg" in
-      let (cfg, rest) = groups ng rest [] in
-      let qs = match rest with _ :: qs -> qs | [] -> [] in
-      let rec qpairs = function a :: b :: t -> (int_of_string a, int_of_string b) :: qpairs t | _ -> [] in
-      let ix = build cfg in
-      let v = match validate cfg with
-        | None -> "valid"
-        | Some (((s, se), prev), name) ->
-          Printf.sprintf "collision %d %s %s %s" (int_of_n s) (show_sel se) (token_of_cps prev) (token_of_cps name) in
-      let rs = List.map (fun (s, c) ->
-          let a = lookup ix (n_of_int s) (n_of_int c) in
-          let b = ref_lookup cfg (n_of_int s) (n_of_int c) in
-          if a <> b then "MODELBUG" else show_match a) (qpairs qs) in
-      print_endline (String.concat " " (v :: ";" :: rs))
+    | "parse" :: [s] -> print_endline (show_parse (cps_of_token s))
+    | "cvlan" :: [s] -> print_endline (show_cvlan (cps_of_token s))
+    | "cfg" :: rest ->
+      let (cfg, rest) = read_config rest in
+      print_endline (String.concat " " (show_validate cfg :: ";" :: queries cfg rest))
+    | "cfgnil" :: rest ->
+      print_endline (String.concat " " (show_validate [] :: ";" :: queries [] rest))
+    | "sweep" :: rest ->
+      let (cfg, _) = read_config rest in
+      print_endline (show_validate cfg ^ " ; " ^ sweep cfg)
+    | ["runes"; kind; lo; hi] -> print_endline (runes kind (int_of_string lo) (int_of_string hi))
     | _ -> print_endline "badline") lines
